@@ -31,3 +31,6 @@ open SamVerif.Heap SamVerif.PStr
 #print axioms live_without_covering_sweep
 #print axioms marked_needs_two_covering_sweeps
 #print axioms coverCount_le_sweepCount
+#print axioms mark_sets_mark
+#print axioms mark_cursor_independent
+#print axioms mark_protects_until_second_cover
